@@ -48,7 +48,10 @@ def make_seeds(y0, idx):
             vs = [val.tab(r, 114 + k, idx), val.tab(r, 115 + k, idx)]
             w2.append(DyadCarrier([u.copy() for u in us], [v.copy() for v in vs]))
         else:
-            w2.append(val.mat(n, 1, 116 + k, idx, cplx).reshape(shape))
+            W = val.mat(n, 1, 116 + k, idx, cplx).reshape(shape)
+            if k >= 1 and W.ndim == 2 and W.shape[1] >= 3:
+                W[:, idx % W.shape[1]] = 0      # one exactly-zero seed column (e.g. an eigenvector that is not used)
+            w2.append(W)
     return w1, w2
 
 
